@@ -1,0 +1,56 @@
+// Copyright © 2022-2026 Obol Labs Inc. Licensed under the terms of a Business Source License 1.1
+
+//go:build verif
+
+package cmd
+
+import (
+	"context"
+
+	eth2p0 "github.com/attestantio/go-eth2-client/spec/phase0"
+
+	"github.com/obolnetwork/charon/cluster"
+	"github.com/obolnetwork/charon/core"
+	"github.com/obolnetwork/charon/tbls"
+)
+
+// This file is only compiled with the "verif" build tag. It exports the unexported glue functions of
+// `charon create cluster` (createcluster.go) to the verification harness under Verif* names. It adds no
+// behaviour to any existing function.
+
+// VerifGetTSSShares is getTSSShares.
+func VerifGetTSSShares(secrets []tbls.PrivateKey, threshold, numNodes int) ([]tbls.PublicKey, [][]tbls.PrivateKey, error) {
+	return getTSSShares(secrets, threshold, numNodes)
+}
+
+// VerifGetValidators is getValidators.
+func VerifGetValidators(dvsPubkeys []tbls.PublicKey, dvPrivShares [][]tbls.PrivateKey, depositDatas [][]eth2p0.DepositData,
+	valRegs []core.VersionedSignedValidatorRegistration,
+) ([]cluster.DistValidator, error) {
+	return getValidators(dvsPubkeys, dvPrivShares, depositDatas, valRegs)
+}
+
+// VerifCreateDepositDatas is createDepositDatas.
+func VerifCreateDepositDatas(withdrawalAddresses []string, network string, secrets []tbls.PrivateKey, depositAmounts []eth2p0.Gwei, compounding bool) ([][]eth2p0.DepositData, error) {
+	return createDepositDatas(withdrawalAddresses, network, secrets, depositAmounts, compounding)
+}
+
+// VerifCreateValidatorRegistrations is createValidatorRegistrations.
+func VerifCreateValidatorRegistrations(ctx context.Context, feeAddresses []string, secrets []tbls.PrivateKey, forkVersion []byte, useCurrentTimestamp bool, targetGasLimit uint) ([]core.VersionedSignedValidatorRegistration, error) {
+	return createValidatorRegistrations(ctx, feeAddresses, secrets, forkVersion, useCurrentTimestamp, targetGasLimit)
+}
+
+// VerifAggSign is aggSign.
+func VerifAggSign(secrets [][]tbls.PrivateKey, message []byte) ([]byte, error) {
+	return aggSign(secrets, message)
+}
+
+// VerifWriteKeysToDisk is writeKeysToDisk.
+func VerifWriteKeysToDisk(numNodes int, clusterDir string, insecureKeys bool, shareSets [][]tbls.PrivateKey) error {
+	return writeKeysToDisk(numNodes, clusterDir, insecureKeys, shareSets)
+}
+
+// VerifValidateAddresses is validateAddresses.
+func VerifValidateAddresses(numVals int, feeRecipientAddrs []string, withdrawalAddrs []string) ([]string, []string, error) {
+	return validateAddresses(numVals, feeRecipientAddrs, withdrawalAddrs)
+}
